@@ -85,7 +85,7 @@ func runC02(c *Ctx) {
 		}
 		r.Check("R02.1", FuncName(fs.Fn), "store ATable.rows = append(same rows, one row)", fs.St.Pos(), good, "rows must only ever be extended at the end by one row")
 	}
-	r.Floor("R02.1", "writers of ATable.rows", nr, 3)
+	r.Floor("R02.1", "writers of ATable.rows", nr, 2)
 	if fn := c.Method(at, true, "NRows"); fn != nil {
 		for i, ret := range returnsOf(fn) {
 			v := results(ret)[0]
@@ -134,10 +134,39 @@ func runC02(c *Ctx) {
 		}
 		r.Check("R02.2", FuncName(fs.Fn), "store Row.rowNum", fs.St.Pos(), ok, why)
 	}
-	r.Floor("R02.2", "writers of Row.rowNum", nn, 2)
+	r.Floor("R02.2", "writers of Row.rowNum", nn, 1)
 	nc := 0
 	for _, fs := range c.StoresTo(colNum) {
 		if fs.Fresh {
+			// alternative shape: the number is set on the function's own copy of the cell, which is then appended;
+			// it must be the cell count the row has after that append, and inRow must be set on the same copy
+			al, isAl := fs.Base.(*ssa.Alloc)
+			if !isAl {
+				continue
+			}
+			p := ix.proverFor(fs.Fn)
+			for _, as := range c.StoresTo(cells) {
+				if as.Fn != fs.Fn || as.Fresh {
+					continue
+				}
+				_, elems, isApp := appendedElems(as.St.Val)
+				if !isApp || len(elems) != 1 {
+					continue
+				}
+				ld, isLd := elems[0].(*ssa.UnOp)
+				if !isLd || ld.X != ssa.Value(al) || !instrDominates(fs.St, ld) {
+					continue
+				}
+				nc++
+				okv := p.linOf(fs.St.Val).String() == p.lenOf(as.St.Val).String()
+				okRow := false
+				for _, rs := range c.StoresTo(inRow) {
+					if rs.Fn == fs.Fn && rs.Base == fs.Base && rs.St.Val == as.Base && instrDominates(rs.St, ld) {
+						okRow = true
+					}
+				}
+				r.Check("R02.2", FuncName(fs.Fn), "store Cell.columnNum", fs.St.Pos(), okv && okRow, fmt.Sprintf("set on the copy that is then appended: number == cell count after the append: %v; inRow set on it: %v", okv, okRow))
+			}
 			continue
 		}
 		nc++
@@ -347,35 +376,30 @@ func c02Growth(c *Ctx, ix *idxEngine, rows, hdr, cells, inTable, nCols, cols *ty
 	// growth => resize
 	ng := 0
 	type grower struct {
-		fs   fieldStore
-		rowV ssa.Value // the row whose cell count matters
-		what string
+		fn     *ssa.Function
+		at     ssa.Instruction
+		grows  bool      // grows Row.cells (as opposed to installing a row)
+		newLen ssa.Value // the grown cells slice (for grows)
+		rowV   ssa.Value // the row whose cell count matters
+		tableV ssa.Value // the table (for installs)
+		what   string
 	}
 	var gs []grower
 	for _, fs := range c.StoresTo(cells) {
 		if fs.Fresh {
 			continue
 		}
-		gs = append(gs, grower{fs, fs.Base, "grows Row.cells"})
+		gs = append(gs, grower{fn: fs.Fn, at: fs.St, grows: true, newLen: fs.St.Val, rowV: fs.Base, what: "grows Row.cells"})
 	}
-	for _, fs := range c.StoresTo(rows) {
-		if fs.Fresh {
-			continue
+	for _, e := range c.installEvents(rows, hdr) {
+		if e.Lifted {
+			continue // the obligation is checked at the helper's call sites
 		}
-		_, elems, ok := appendedElems(fs.St.Val)
-		if ok && len(elems) == 1 {
-			gs = append(gs, grower{fs, elems[0], "installs a row in ATable.rows"})
-		}
-	}
-	for _, fs := range c.StoresTo(hdr) {
-		if fs.Fresh {
-			continue
-		}
-		gs = append(gs, grower{fs, fs.St.Val, "installs the header row"})
+		gs = append(gs, grower{fn: e.Fn, at: e.At, rowV: e.Row, tableV: e.Table, what: e.What})
 	}
 	for _, g := range gs {
 		ng++
-		fn := g.fs.Fn
+		fn := g.fn
 		p := ix.proverFor(fn)
 		// exempt: a row built by a constructor that stores no cells (separator)
 		if call, ok := g.rowV.(*ssa.Call); ok {
@@ -386,8 +410,8 @@ func c02Growth(c *Ctx, ix *idxEngine, rows, hdr, cells, inTable, nCols, cols *ty
 						storesCells = true
 					}
 				}
-				if !storesCells && g.fs.Field != cells {
-					r.Check("R02.3", FuncName(fn), g.what+": row without a cell list has nothing to count", g.fs.St.Pos(), true, "built by "+FuncName(f)+", which stores no cells")
+				if !storesCells && !g.grows {
+					r.Check("R02.3", FuncName(fn), g.what+": row without a cell list has nothing to count", g.at.Pos(), true, "built by "+FuncName(f)+", which stores no cells")
 					continue
 				}
 			}
@@ -402,13 +426,10 @@ func c02Growth(c *Ctx, ix *idxEngine, rows, hdr, cells, inTable, nCols, cols *ty
 			// the argument is the row's cell count
 			argOK := false
 			al := p.linOf(arg)
-			if g.fs.Field == cells {
-				argOK = al.String() == p.lenOf(g.fs.St.Val).String()
+			if g.grows {
+				argOK = al.String() == p.lenOf(g.newLen).String()
 			} else {
 				// len(row.cells) read in this function, or len(items) of the variadic from which the row is filled
-				for t := range al.coef {
-					_ = t
-				}
 				if call, is := isBuiltinCall(p.resolve(arg), "len"); is {
 					a0 := call.Call.Args[0]
 					if f, b := loadedField(a0); f == cells && b == g.rowV {
@@ -425,7 +446,7 @@ func c02Growth(c *Ctx, ix *idxEngine, rows, hdr, cells, inTable, nCols, cols *ty
 			// guard: only "row is in a table" may stand between the growth and the resize
 			extra := 0
 			storeConds := map[ssa.Value]bool{}
-			for _, cf := range dominatingConds(g.fs.St.Block()) {
+			for _, cf := range dominatingConds(g.at.Block()) {
 				storeConds[cf.Cond] = true
 			}
 			for _, cf := range dominatingConds(in.Block()) {
@@ -447,22 +468,21 @@ func c02Growth(c *Ctx, ix *idxEngine, rows, hdr, cells, inTable, nCols, cols *ty
 			// receiver: the table the row is in / being installed in
 			recv := cc.Args[0]
 			recvOK := false
-			if g.fs.Field == cells {
+			if g.grows {
 				f, b := loadedField(recv)
 				recvOK = f == inTable && b == g.rowV
 			} else {
-				recvOK = recv == g.fs.Base
+				recvOK = recv == g.tableV
 			}
 			if !recvOK {
 				why = "resize is applied to a different table"
 				return
 			}
-			// every return is reachable only through the call or through the not-in-table edge
 			ok, why = true, "resize(len(cells)) on the owning table, unconditionally or under inTable != nil"
 		})
-		r.Check("R02.3", FuncName(fn), g.what+" and keeps the column count in step", g.fs.St.Pos(), ok, why)
+		r.Check("R02.3", FuncName(fn), g.what+" and keeps the column count in step", g.at.Pos(), ok, why)
 	}
-	r.Floor("R02.3", "functions that grow or install a row", ng, 4)
+	r.Floor("R02.3", "functions that grow or install a row", ng, 3)
 }
 
 // fillsRowFromParam: fn appends exactly one cell per element of the variadic parameter to rowV
